@@ -27,7 +27,9 @@ ASSUMPTIONS = ['a write torn by a crash leaves a prefix of the intended bytes (w
                'mutually consistent is undetectable without checksums: only totality is judged for it']
 COMPONENTS = {'real': ['flipjump.fjm.fjm_writer.Writer.write_to_file', 'flipjump.fjm.fjm_reader.Reader + assert_runnable',
                        'flipjump.interpreter.fjm_run.run (load path)', 'lzma'],
-              'stub': ['the disk (sim/simfs.py SimFS, installed by module-level name injection of `open`)'],
+              'stub': ['the disk for the writer and for the torn-prefix enumeration (sim/simfs.py SimFS, installed by module-level name '
+                       'injection of `open`); field corruptions, lost blocks and payload damage are opened from REAL files so that the '
+                       'buffered reader behaves as in production'],
               'oracle': ['independent struct-level parser of the format in this file (named inconsistencies)',
                          'image of the intact file']}
 TIME_NOTE = 'the unit of simulated time is one file operation on the simulated disk; crash points are byte offsets'
@@ -169,18 +171,31 @@ def image_of(reader):
     return reader.memory_width, tuple(segs), tuple(sorted(words.items()))
 
 
-def open_variant(b, measure=False):
-    """(verdict, detail): verdict in accept / reject / wrong-exception. the Reader reads from the simulated disk."""
+_real_path = None
+
+
+def open_variant(b, measure=False, real=False):
+    """(verdict, detail): verdict in accept / reject / wrong-exception. the Reader reads from the simulated disk, or
+    (real=True) from a real file, so that the buffered reader's own behaviour on absurd read sizes is the real one."""
+    global _real_path
     from flipjump.fjm.fjm_reader import Reader
     from flipjump.utils.exceptions import FlipJumpReadFjmException
-    FS.files['/simfs/v.fjm'] = bytes(b)
+    path = '/simfs/v.fjm'
+    if real:
+        if _real_path is None:
+            from sim import case as C
+            _real_path = C.scratch_dir() / 'variant.fjm'
+        _real_path.write_bytes(bytes(b))
+        path = _real_path
+    else:
+        FS.files['/simfs/v.fjm'] = bytes(b)
     t0 = time.perf_counter()
     peak = 0
     if measure:
         tracemalloc.start()
     try:
         try:
-            r = Reader('/simfs/v.fjm')
+            r = Reader(path)
             r.assert_runnable()
             verdict, detail = 'accept', r
         except FlipJumpReadFjmException as e:
@@ -335,14 +350,14 @@ def run(case):
                 b = bytes(b)
                 if b == F:
                     continue
-                verdict, detail, dt, _ = open_variant(b)
+                verdict, detail, dt, _ = open_variant(b, real=True)
                 evals += 1
                 count(f'lost-block-{bs}')
                 states.add(f"v{case['version']}|w{case['w']}|lost:{region_of(k * bs, h, n)}|{verdict}")
                 _judge_damaged(b, verdict, detail, f'lost-block{bs}@{k}', viol)
     # ---- 3. every single-field corruption
     for name, b in field_variants(F, h):
-        verdict, detail, dt, peak = open_variant(b, measure=True)
+        verdict, detail, dt, peak = open_variant(b, measure=True, real=True)
         evals += 1
         count('field-corruption')
         states.add(f"v{case['version']}|w{case['w']}|field:{name.split('=')[0].split('[')[0]}|{verdict}")
@@ -369,7 +384,7 @@ def run(case):
                 pos = rng.randrange(pay_off, n + 1)
                 b[pos:pos] = bytes(rng.randrange(256) for _ in range(rng.choice([1, 2, 3, 8])))
             b = bytes(b)
-            verdict, detail, dt, _ = open_variant(b)
+            verdict, detail, dt, _ = open_variant(b, real=True)
             evals += 1
             count('payload-damage')
             states.add(f"v{case['version']}|w{case['w']}|payload|{verdict}")
